@@ -124,8 +124,11 @@ PROPS = {
                     "from its parameter count, and with UndeclaredIdentifier iff the name is neither (call_rule: each error in its own category).  "
                     "DECLARED TYPES (unit resolver_assign): after `make x get e`, first declaration or re-declaration in the same scope, the static "
                     "type later uses of x are checked against is e's type (dynamic if e has none).  RETURN TYPES (unit return_fixpoint): every "
-                    "refinement pass re-infers EVERY function of the block, so a signature first inferred from not-yet-typed callees is corrected."),
-        "not_covered": ("undeclared-variable, duplicate-function/parameter and reserved-name rules (loops over HashSet / closures), function "
+                    "refinement pass re-infers EVERY function of the block, so a signature first inferred from not-yet-typed callees is corrected.  "
+                    "STATEMENTS (unit resolver_stmt): a variable reference is UndeclaredIdentifier and `x get e` is AssignmentToUndeclared exactly "
+                    "when no such variable is in scope (e is checked either way); an if checks its condition under the boolean rule and both "
+                    "branches at its own loop depth; a jasi checks its body -- and only its body -- one loop level deeper and restores the depth."),
+        "not_covered": ("duplicate-function/parameter and reserved-name rules for functions and parameters (loops over HashSet / closures), function "
                         "lookup itself (lookup_func is a parameter of call_rule; its innermost-scope rule is a Kani obligation under C04), which methods exist for which "
                         "receiver type and their argument count, "
                         "plain re-assignment (`x get e` does not re-type x), and the recursion of check_expr over sub-expressions (cut at the arm boundary)."),
